@@ -786,3 +786,463 @@ theorem exec_chars (fuel : Nat) : ∀ (s0 s : St) (acc bs : Bytes), InStr s0 s a
 
 
 end OjgVerif.Json
+
+namespace OjgVerif.Json
+open OjgVerif
+
+/-- the number-internal transitions of the machine on the accumulator alone -/
+def numStep (m : Mode) (n : Num) (b : UInt8) : Option (Mode × Num) :=
+  match expected m b with
+  | .val0 => some (.zero, n.reset)
+  | .valDigit => some (.digit, { n.reset with i := (b - 48).toUInt64 })
+  | .valNeg => some (.neg, { n.reset with neg := true })
+  | .numZero => some (.zero, n)
+  | .negDigit => some (.digit, n.addDigit b)
+  | .numDigit => some (.digit, n.addDigit b)
+  | .numDot => some (.dot, if 0 < n.big.length then { n with big := n.big ++ [b] } else n)
+  | .numFrac => some (.frac, n.addFrac b)
+  | .fracE => some (.expSign, if 0 < n.big.length then { n with big := n.big ++ [b] } else n)
+  | .expSign => some (.expZero, { n with big := if 0 < n.big.length then n.big ++ [b] else n.big,
+                                          negExp := n.negExp || b = 45 })
+  | .expDigit => some (.exp, n.addExp b)
+  | _ => none
+
+/-- a number-internal step of the machine changes only mode, accumulator and offset -/
+theorem step_num (s : St) (b : UInt8) (m' : Mode) (n' : Num) (hinf : s.inFast = false)
+    (h : numStep s.mode s.num b = some (m', n')) :
+    step refTables cfg1 s b = .ok { s with mode := m', num := n', pos := s.pos + 1, inFast := false } := by
+  unfold numStep at h
+  have hact0 : refTables.act s.mode b = expected s.mode b := rfl
+  have hsrc := src_ok s.mode b
+  unfold step stepAct
+  rw [hact0]
+  cases hact : expected s.mode b <;> simp only [hact] at h ⊢ <;> cases h
+  all_goals simp only [Bool.false_eq_true, ↓reduceIte, hinf, Bool.false_and]
+  case numDigit =>
+    rw [hact] at hsrc
+    simp only [srcModes, List.mem_singleton] at hsrc
+    rw [deliver_id _ (by simp only [hsrc]; decide)]
+    simp only [hsrc]
+  case numDot =>
+    by_cases hb : 0 < s.num.big.length
+    · simp only [hb, decide_true, ↓reduceIte]
+    · simp only [hb, decide_false, Bool.false_eq_true, ↓reduceIte]
+      rw [deliver_id _ (by simp only; decide)]
+  all_goals (try (rw [deliver_id _ (by simp only; decide)]))
+  all_goals (try rfl)
+
+
+/-- run number-internal steps as long as possible: final mode, accumulator and unread input -/
+def numScan : Mode → Num → Bytes → Mode × Num × Bytes
+  | m, n, [] => (m, n, [])
+  | m, n, b :: r =>
+    match numStep m n b with
+    | some (m', n') => numScan m' n' r
+    | none => (m, n, b :: r)
+
+/-- state after a number scan -/
+def sScan (s : St) (bs : Bytes) : St :=
+  { s with mode := (numScan s.mode s.num bs).1, num := (numScan s.mode s.num bs).2.1,
+           pos := s.pos + (bs.length - (numScan s.mode s.num bs).2.2.length), inFast := false }
+
+theorem numScan_length (m : Mode) (n : Num) (bs : Bytes) : (numScan m n bs).2.2.length ≤ bs.length := by
+  induction bs generalizing m n with
+  | nil => simp [numScan]
+  | cons b r ih =>
+    simp only [numScan]
+    split
+    · rename_i m' n' _
+      have := ih m' n'; simp only [List.length_cons]; omega
+    · simp
+
+theorem exec_scan (bs : Bytes) : ∀ (s : St), s.inFast = false →
+    exec s bs = exec (sScan s bs) (numScan s.mode s.num bs).2.2 := by
+  induction bs with
+  | nil =>
+    intro s hinf
+    have : sScan s [] = s := by
+      unfold sScan; simp only [numScan, List.length_nil, Nat.sub_self, Nat.add_zero]
+      cases s; simp_all
+    rw [this]; rfl
+  | cons b r ih =>
+    intro s hinf
+    cases hst : numStep s.mode s.num b with
+    | none =>
+      have : sScan s (b :: r) = s := by
+        unfold sScan; simp only [numScan, hst, Nat.sub_self, Nat.add_zero]
+        cases s; simp_all
+      rw [this]; simp only [numScan, hst]
+    | some p =>
+      obtain ⟨m', n'⟩ := p
+      rw [exec_cons, step_num s b m' n' hinf hst]
+      simp only
+      rw [ih _ rfl]
+      have hl := numScan_length m' n' r
+      have hs : sScan ({ s with mode := m', num := n', pos := s.pos + 1, inFast := false } : St) r = sScan s (b :: r) := by
+        unfold sScan
+        simp only [numScan, hst, List.length_cons]
+        have : s.pos + 1 + (r.length - (numScan m' n' r).2.2.length) = s.pos + (r.length + 1 - (numScan m' n' r).2.2.length) := by omega
+        rw [this]
+      rw [hs]
+      simp only [numScan, hst]
+
+
+/-- a complete number is pending in state `s`, which started in value position `s0` -/
+structure InNum (s0 s : St) : Prop where
+  fin : s.mode = .zero ∨ s.mode = .digit ∨ s.mode = .frac ∨ s.mode = .exp
+  starts : s.starts = s0.starts
+  stack : s.stack = s0.stack
+  docs : s.docs = s0.docs
+  next : s.nextMode = .colon ∨ s.nextMode = .after
+  inFast : s.inFast = false
+
+def isFinalNum (m : Mode) : Bool := m == .zero || m == .digit || m == .frac || m == .exp
+
+/-- what follows a number: how the same byte reads in `after` / `space` mode -/
+theorem numEnd_facts (m : Mode) (h : UInt8) (hm : isFinalNum m = true) :
+    (expected m h = .numSpc → expected .after h = .skipChar ∧ expected .space h = .skipChar) ∧
+    (expected m h = .numNewline → expected .after h = .skipNewline ∧ expected .space h = .skipNewline) ∧
+    (expected m h = .numComma → expected .after h = .afterComma ∧ expected .space h = .charErr) ∧
+    (expected m h = .closeArray → expected .after h = .closeArray ∧ expected .space h = .charErr) ∧
+    (expected m h = .closeObject → expected .after h = .closeObject ∧ expected .space h = .charErr) ∧
+    (expected m h = .charErr → expected .after h = .charErr ∧ expected .space h = .charErr) := by
+  have := forall_mode_byte (fun m h => !isFinalNum m ||
+      ((!(expected m h == .numSpc) || (expected .after h == .skipChar && expected .space h == .skipChar)) &&
+       (!(expected m h == .numNewline) || (expected .after h == .skipNewline && expected .space h == .skipNewline)) &&
+       (!(expected m h == .numComma) || (expected .after h == .afterComma && expected .space h == .charErr)) &&
+       (!(expected m h == .closeArray) || (expected .after h == .closeArray && expected .space h == .charErr)) &&
+       (!(expected m h == .closeObject) || (expected .after h == .closeObject && expected .space h == .charErr)) &&
+       (!(expected m h == .charErr) || (expected .after h == .charErr && expected .space h == .charErr))))
+    (by decide +kernel) m h
+  simp only [hm, Bool.not_true, Bool.false_or, Bool.and_eq_true, Bool.or_eq_true, Bool.not_eq_eq_eq_not,
+    beq_iff_eq, bne_iff_ne, ne_eq] at this
+  obtain ⟨⟨⟨⟨⟨h1, h2⟩, h3⟩, h4⟩, h5⟩, h6⟩ := this
+  refine ⟨?_, ?_, ?_, ?_, ?_, ?_⟩ <;> intro hh
+  · rcases h1 with h | h; exact absurd hh (by simpa using h); exact h
+  · rcases h2 with h | h; exact absurd hh (by simpa using h); exact h
+  · rcases h3 with h | h; exact absurd hh (by simpa using h); exact h
+  · rcases h4 with h | h; exact absurd hh (by simpa using h); exact h
+  · rcases h5 with h | h; exact absurd hh (by simpa using h); exact h
+  · rcases h6 with h | h; exact absurd hh (by simpa using h); exact h
+
+
+theorem St.add_withMode (s : St) (m : Mode) (v : JV) :
+    ({ s with mode := m } : St).add v = match s.add v with
+      | .error e => .error e
+      | .ok x => .ok { x with mode := m } := by
+  unfold St.add
+  cases addItem v s.stack <;> rfl
+
+theorem St.popArr_withMode (s : St) (m : Mode) (rest : List Bool) :
+    ({ s with mode := m } : St).popArr rest = match s.popArr rest with
+      | .error e => .error e
+      | .ok x => .ok { x with mode := m } := by
+  unfold St.popArr
+  simp only
+  cases splitAtMark s.stack [] with
+  | none => rfl
+  | some p => exact St.add_withMode { s with starts := rest, stack := p.2 } m (.arr p.1)
+
+theorem St.popObj_withMode (s : St) (m : Mode) (rest : List Bool) :
+    ({ s with mode := m } : St).popObj rest = match s.popObj rest with
+      | .error e => .error e
+      | .ok x => .ok { x with mode := m } := by
+  unfold St.popObj
+  simp only
+  cases s.stack with
+  | nil => rfl
+  | cons top below => exact St.add_withMode { s with starts := rest, stack := below } m top.toJV
+
+/-- the state with the pending number added: what every number-ending transition starts from -/
+def sNumAdded (s : St) (st' : List Item) : St := { s with mode := Mode.after, stack := st' }
+
+
+theorem deliver_after (s : St) (hm : s.mode = .after) :
+    deliver refTables cfg1 s =
+      if s.starts.isEmpty then
+        { s with docs := (match s.stack.getLast? with | some it => it.toJV | none => JV.null) :: s.docs,
+                 stack := [], mode := Mode.space }
+      else s := by
+  unfold deliver
+  have : refTables.fin s.mode = .a := by rw [hm]; rfl
+  simp only [this, decide_true, Bool.and_true, cfg1]
+  rfl
+
+theorem finish_num (s : St) (st' : List Item) (hst : s.starts = []) (hfin : refTables.fin s.mode = .n)
+    (hadd : s.addNum = .ok { s with stack := st' }) :
+    finish refTables s = .ok ((match st'.getLast? with | some it => it.toJV | none => JV.null) :: s.docs).reverse := by
+  unfold finish
+  have h1 : refTables.fin s.mode ≠ .absent := by rw [hfin]; decide
+  simp only [hst, List.isEmpty_nil, Bool.not_true, Bool.false_or, hfin, hadd, ↓reduceIte]
+  rfl
+
+theorem finish_space (s : St) (hst : s.starts = []) (hm : s.mode = .space) :
+    finish refTables s = .ok s.docs.reverse := by
+  unfold finish
+  have h1 : refTables.fin s.mode = .s := by rw [hm]; rfl
+  simp [hst, h1]
+
+theorem finish_open (s : St) (x : Bool) (ss : List Bool) (hst : s.starts = x :: ss) :
+    ∃ e, finish refTables s = .error e := by
+  unfold finish
+  simp [hst]
+
+/-- **A number ends.** In a final number mode, with input that does not continue the number, the
+machine behaves exactly as if the number had been added as a complete value first. -/
+theorem exec_numEnd (s0 s : St) (hv : ValPos s0) (hin : InNum s0 s) (rest : Bytes)
+    (hrest : rest = [] ∨ ∃ h t, rest = h :: t ∧ numStep s.mode s.num h = none) :
+    ∃ s', Added s0 s.num.asNum.toJV s' ∧ exec s rest = exec s' rest := by
+  have hsh : Shape s0.starts s0.stack true := by
+    have := hv.wf.shape; rw [needVal_of_valpos hv] at this; exact this
+  obtain ⟨st', hadd, hadded⟩ := added_of_add s0 s s.num.asNum.toJV hv.wf hsh ⟨hin.starts, hin.stack, hin.docs⟩ hin.next
+  have haddN : s.addNum = .ok { s with stack := st' } := by
+    have h1 := St.add_withMode s .after s.num.asNum.toJV
+    rw [hadd] at h1
+    unfold St.addNum
+    cases hs : s.add s.num.asNum.toJV with
+    | error e => rw [hs] at h1; cases h1
+    | ok x =>
+      rw [hs] at h1
+      simp only [Except.ok.injEq] at h1
+      unfold St.add at hs
+      cases ha : addItem s.num.asNum.toJV s.stack with
+      | error w => rw [ha] at hs; cases hs
+      | ok st =>
+        rw [ha] at hs
+        simp only [Except.ok.injEq] at hs
+        subst hs
+        simp only [St.mk.injEq] at h1
+        rw [h1.2.2.2.1]
+  refine ⟨deliver refTables cfg1 (sNumAdded s st'), hadded, ?_⟩
+  have hfinN : refTables.fin s.mode = .n := by
+    rcases hin.fin with h | h | h | h <;> (rw [h]; rfl)
+  have hfinal : isFinalNum s.mode = true := by
+    rcases hin.fin with h | h | h | h <;> simp [isFinalNum, h]
+  have hdA := deliver_after (sNumAdded s st') rfl
+  rcases hrest with hnil | ⟨h, t, hht, hnone⟩
+  · -- end of input
+    subst hnil
+    unfold exec
+    simp only [runBytes]
+    cases hst : s.starts with
+    | nil =>
+      have he : (sNumAdded s st').starts.isEmpty = true := by simp [sNumAdded, hst]
+      rw [hdA]
+      simp only [he, ↓reduceIte]
+      rw [finish_num s st' hst hfinN haddN, finish_space _ (by simp [sNumAdded, hst]) rfl]
+      rfl
+    | cons x ss =>
+      have he : (sNumAdded s st').starts.isEmpty = false := by simp [sNumAdded, hst]
+      rw [hdA]
+      simp only [he, Bool.false_eq_true, ↓reduceIte]
+      obtain ⟨e1, h1⟩ := finish_open s x ss hst
+      obtain ⟨e2, h2⟩ := finish_open (sNumAdded s st') x ss (by simp [sNumAdded, hst])
+      rw [h1, h2]
+  · -- a byte follows
+    subst hht
+    have hsrc := src_ok s.mode h
+    have hfacts := numEnd_facts s.mode h hfinal
+    have hact0 : refTables.act s.mode h = expected s.mode h := rfl
+    rw [exec_cons, exec_cons]
+    -- the delivered state, concretely
+    obtain ⟨S, hS, hSm, hSpos, hSinf⟩ : ∃ S, deliver refTables cfg1 (sNumAdded s st') = S ∧
+        ((s.starts = [] ∧ S.mode = .space) ∨ (s.starts ≠ [] ∧ S = sNumAdded s st')) ∧ S.pos = s.pos ∧ S.inFast = false := by
+      refine ⟨_, rfl, ?_, ?_, ?_⟩
+      · rw [hdA]
+        cases hst : s.starts with
+        | nil => left; simp [sNumAdded, hst]
+        | cons x ss => right; simp [sNumAdded, hst]
+      · rw [hdA]; split <;> rfl
+      · rw [hdA]; split <;> simp [sNumAdded, hin.inFast]
+    rw [hS]
+    have hreadS : ∀ a1 a2, expected .after h = a1 → expected .space h = a2 →
+        refTables.act S.mode h = (if s.starts = [] then a2 else a1) := by
+      intro a1 a2 h1 h2
+      rcases hSm with ⟨h0, hm⟩ | ⟨h0, hm⟩
+      · rw [hm, if_pos h0]; exact h2
+      · rw [hm, if_neg h0]; exact h1
+    cases hact : expected s.mode h
+    case numSpc =>
+      obtain ⟨ha, hsp⟩ := hfacts.1 hact
+      have hl : step refTables cfg1 s h = .ok { S with pos := S.pos + 1, inFast := false } := by
+        unfold step stepAct
+        simp only [hact0, hact, haddN, bind, Except.bind, pure, Except.pure, Bool.false_eq_true, ↓reduceIte]
+        rw [← hS]; rfl
+      have hr : step refTables cfg1 S h = .ok { S with pos := S.pos + 1, inFast := false } := by
+        have : refTables.act S.mode h = .skipChar := by rw [hreadS _ _ ha hsp]; split <;> rfl
+        unfold step stepAct
+        simp only [this, ↓reduceIte]
+      rw [hl, hr]
+    case numNewline =>
+      obtain ⟨ha, hsp⟩ := hfacts.2.1 hact
+      have hl : step refTables cfg1 s h = .ok { S with line := S.line + 1, nl := S.pos, pos := S.pos + 1, inFast := false } := by
+        unfold step stepAct
+        simp only [hact0, hact, haddN, bind, Except.bind, pure, Except.pure, Bool.false_eq_true, ↓reduceIte]
+        rw [← hS, hdA]
+        have hd2 := deliver_after ({ s with stack := st', line := s.line + 1, nl := (s.pos : Int), mode := Mode.after } : St) rfl
+        rw [hd2]
+        simp only [sNumAdded]
+        by_cases he : s.starts.isEmpty = true
+        · simp [he]
+        · simp [he]
+      have hr : step refTables cfg1 S h = .ok { S with line := S.line + 1, nl := S.pos, pos := S.pos + 1, inFast := false } := by
+        have : refTables.act S.mode h = .skipNewline := by rw [hreadS _ _ ha hsp]; split <;> rfl
+        unfold step stepAct
+        simp only [this, ↓reduceIte]
+      rw [hl, hr]
+    case charErr =>
+      obtain ⟨ha, hsp⟩ := hfacts.2.2.2.2.2 hact
+      have hl : ∃ e, step refTables cfg1 s h = .error e := by
+        unfold step stepAct
+        simp only [hact0, hact]
+        exact ⟨_, rfl⟩
+      have hr : ∃ e, step refTables cfg1 S h = .error e := by
+        have : refTables.act S.mode h = .charErr := by rw [hreadS _ _ ha hsp]; split <;> rfl
+        unfold step stepAct
+        simp only [this]
+        exact ⟨_, rfl⟩
+      obtain ⟨e1, h1⟩ := hl
+      obtain ⟨e2, h2⟩ := hr
+      rw [h1, h2]
+    case numComma =>
+      obtain ⟨ha, hsp⟩ := hfacts.2.2.1 hact
+      rcases hSm with ⟨h0, hm⟩ | ⟨h0, hm⟩
+      · -- top level: both reject
+        have hl : ∃ e, step refTables cfg1 s h = .error e := by
+          unfold step stepAct
+          simp only [hact0, hact, haddN, bind, Except.bind, h0]
+          exact ⟨_, rfl⟩
+        have hr : ∃ e, step refTables cfg1 S h = .error e := by
+          have : refTables.act S.mode h = .charErr := by rw [hm]; exact hsp
+          unfold step stepAct
+          simp only [this]
+          exact ⟨_, rfl⟩
+        obtain ⟨e1, h1⟩ := hl
+        obtain ⟨e2, h2⟩ := hr
+        rw [h1, h2]
+      · subst hm
+        obtain ⟨x, ss, hst⟩ := List.exists_cons_of_ne_nil h0
+        have hne : ∀ t : St, t.starts = x :: ss → expectedFin (afterCommaMode t) ≠ .a := by
+          intro t ht
+          unfold afterCommaMode; rw [ht]; cases x <;> simp [expectedFin]
+        have hl : step refTables cfg1 s h = .ok { sNumAdded s st' with mode := afterCommaMode (sNumAdded s st'), pos := s.pos + 1, inFast := false } := by
+          unfold step stepAct
+          simp only [hact0, hact, haddN, bind, Except.bind, pure, Except.pure, hst, Bool.false_eq_true, ↓reduceIte]
+          rw [deliver_id _ (by simp only; exact hne _ rfl)]
+          simp only [sNumAdded, afterCommaMode, hst]
+        have hr : step refTables cfg1 (sNumAdded s st') h = .ok { sNumAdded s st' with mode := afterCommaMode (sNumAdded s st'), pos := s.pos + 1, inFast := false } := by
+          have : refTables.act (sNumAdded s st').mode h = .afterComma := ha
+          unfold step stepAct
+          simp only [this, ↓reduceIte]
+          simp only [sNumAdded, afterCommaMode, hst]
+        rw [hl, hr]
+    case closeArray =>
+      obtain ⟨ha, hsp⟩ := hfacts.2.2.2.1 hact
+      rcases hSm with ⟨h0, hm⟩ | ⟨h0, hm⟩
+      · have hl : ∃ e, step refTables cfg1 s h = .error e := by
+          unfold step stepAct
+          simp only [hact0, hact, h0]
+          exact ⟨_, rfl⟩
+        have hr : ∃ e, step refTables cfg1 S h = .error e := by
+          have : refTables.act S.mode h = .charErr := by rw [hm]; exact hsp
+          unfold step stepAct
+          simp only [this]
+          exact ⟨_, rfl⟩
+        obtain ⟨e1, h1⟩ := hl
+        obtain ⟨e2, h2⟩ := hr
+        rw [h1, h2]
+      · subst hm
+        obtain ⟨x, ss, hst⟩ := List.exists_cons_of_ne_nil h0
+        have hactA : refTables.act (sNumAdded s st').mode h = .closeArray := ha
+        have hflA : (sNumAdded s st').flushNum refTables = .ok (sNumAdded s st') := by
+          unfold St.flushNum
+          have : refTables.fin (sNumAdded s st').mode ≠ .n := by simp only [sNumAdded]; decide
+          simp [this]
+        have hflS : s.flushNum refTables = .ok { s with stack := st' } := by
+          unfold St.flushNum; rw [if_pos hfinN]; exact haddN
+        have hpop := St.popArr_withMode ({ s with stack := st' } : St) .after ss
+        cases x with
+        | false =>
+          have hl : ∃ e, step refTables cfg1 s h = .error e := by
+            unfold step stepAct
+            simp only [hact0, hact, hst]
+            exact ⟨_, rfl⟩
+          have hr : ∃ e, step refTables cfg1 (sNumAdded s st') h = .error e := by
+            unfold step stepAct
+            simp only [hactA]
+            simp only [sNumAdded, hst]
+            exact ⟨_, rfl⟩
+          obtain ⟨e1, h1⟩ := hl
+          obtain ⟨e2, h2⟩ := hr
+          rw [h1, h2]
+        | true =>
+          have heq : step refTables cfg1 s h = step refTables cfg1 (sNumAdded s st') h := by
+            have hst2 : (sNumAdded s st').starts = true :: ss := hst
+            have hpop2 : (sNumAdded s st').popArr ss = _ := hpop
+            unfold step stepAct
+            rw [hact0, hact, hactA]
+            simp only [hst, hst2, hflS, hflA, bind, Except.bind, pure, Except.pure, hpop2]
+            generalize St.popArr _ ss = r
+            cases r <;> rfl
+          rw [heq]
+    case closeObject =>
+      obtain ⟨ha, hsp⟩ := hfacts.2.2.2.2.1 hact
+      rcases hSm with ⟨h0, hm⟩ | ⟨h0, hm⟩
+      · have hl : ∃ e, step refTables cfg1 s h = .error e := by
+          unfold step stepAct
+          simp only [hact0, hact, h0]
+          exact ⟨_, rfl⟩
+        have hr : ∃ e, step refTables cfg1 S h = .error e := by
+          have : refTables.act S.mode h = .charErr := by rw [hm]; exact hsp
+          unfold step stepAct
+          simp only [this]
+          exact ⟨_, rfl⟩
+        obtain ⟨e1, h1⟩ := hl
+        obtain ⟨e2, h2⟩ := hr
+        rw [h1, h2]
+      · subst hm
+        obtain ⟨x, ss, hst⟩ := List.exists_cons_of_ne_nil h0
+        have hactA : refTables.act (sNumAdded s st').mode h = .closeObject := ha
+        have hflA : (sNumAdded s st').flushNum refTables = .ok (sNumAdded s st') := by
+          unfold St.flushNum
+          have : refTables.fin (sNumAdded s st').mode ≠ .n := by simp only [sNumAdded]; decide
+          simp [this]
+        have hflS : s.flushNum refTables = .ok { s with stack := st' } := by
+          unfold St.flushNum; rw [if_pos hfinN]; exact haddN
+        have hpop := St.popObj_withMode ({ s with stack := st' } : St) .after ss
+        have hvS : refTables.fin s.mode ≠ .v := by rw [hfinN]; decide
+        have hvA : refTables.fin (sNumAdded s st').mode ≠ .v := by simp only [sNumAdded]; decide
+        cases x with
+        | true =>
+          have hl : ∃ e, step refTables cfg1 s h = .error e := by
+            unfold step stepAct
+            simp only [hact0, hact, hst]
+            exact ⟨_, rfl⟩
+          have hr : ∃ e, step refTables cfg1 (sNumAdded s st') h = .error e := by
+            unfold step stepAct
+            simp only [hactA]
+            simp only [sNumAdded, hst]
+            exact ⟨_, rfl⟩
+          obtain ⟨e1, h1⟩ := hl
+          obtain ⟨e2, h2⟩ := hr
+          rw [h1, h2]
+        | false =>
+          have heq : step refTables cfg1 s h = step refTables cfg1 (sNumAdded s st') h := by
+            have hst2 : (sNumAdded s st').starts = false :: ss := hst
+            have hpop2 : (sNumAdded s st').popObj ss = _ := hpop
+            unfold step stepAct
+            rw [hact0, hact, hactA]
+            simp only [hst, hst2, hvS, hvA, ↓reduceIte, hflS, hflA, bind, Except.bind, pure, Except.pure, hpop2]
+            generalize St.popObj _ ss = r
+            cases r <;> rfl
+          rw [heq]
+    all_goals (
+      exfalso
+      first
+      | (simp [numStep, hact] at hnone; done)
+      | (rw [hact] at hsrc; simp only [srcModes, List.mem_cons, List.not_mem_nil, or_false] at hsrc; done)
+      | (rw [hact] at hsrc; simp only [srcModes, List.mem_cons, List.not_mem_nil, or_false] at hsrc
+         rcases hin.fin with hq | hq | hq | hq <;> simp [hq] at hsrc))
+
+
+end OjgVerif.Json
